@@ -7,6 +7,7 @@ import pathlib
 V = [
     0, 1, -1, 2, 3, 1.5, 0.0, True, False, None, "", "a", "b", "1", "3", "3.0", "true", "FALSE",
     "abc", "50%", "%z", [], [1], [1, "a"], [[1]], {}, {"a": 1}, {"a": {"b": 1}}, {1: "x"},
+    "inf", "-Infinity", "nan", "1e999", "1e3", "0x10", "1_000",      # strings that look like numbers to float() / int()
 ]
 K = ["a", "b", "", "1", 0, 1, -1, 1.5, True, False, None]
 
@@ -17,7 +18,8 @@ K5 = ["a", "b", 1, 1.5, None]
 TYPES7 = [int, float, str, list, dict, bool, pathlib.Path]
 
 # ---- single-argument alphabet for callables (C01) ------------------------------------------
-ARG18 = [0, 1, 2, -1, 1.5, True, False, None, "", "a", "1", "abc", [], [1, "a"], [[1]], {}, {"a": 1}]
+ARG18 = [0, 1, 2, -1, 1.5, True, False, None, "", "a", "1", "abc", [], [1, "a"], [[1]], {}, {"a": 1},
+         {"value": 3}, {"key": "a"}, {"keys": ["a"]}]   # literal mappings keyed like the callable's own parameter
 ARG6 = [0, 1, 3, 1.5, "a", None]
 KEYS5 = ["a", "b", 1, None, ["x"]]
 
